@@ -18,7 +18,10 @@ RULE = ("op sequences over {open_job(sp), open_job(id | prefix | unknown id), in
         "doc[k]=v, document = {...}, file creation (incl. nested), update_cache, new Project session, copy.copy, "
         "deepcopy, pickle round trip, statepoint(), ids, len, in, planting a '<id>.bak' directory} on two projects; "
         "universe: keys a,b,c,d with <=3 values each (ints, a string, lists), 3 file names, 2 document keys; several "
-        "live handles (the generator prefers recent ones but keeps using old, possibly stale ones). After EVERY op: "
+        "live handles (the generator prefers recent ones but keeps using old, possibly stale ones); 12% of the steps are composite "
+        "patterns: multi-key update_statepoint with a neighbour job at a partially updated state point; the caller mutates "
+        "(in place, nested) the mapping it passed to open_job before the handle is first used; copy.copy + move through the "
+        "copy + state point change through the one left behind. After EVERY op: "
         "raw walk of both workspaces (+ persistent cache file), the view through a brand-new Project of every root "
         "(ids, statepoint(), document(), recursive file listing) and check(); harness also asserts that nothing "
         "but workspace/, .signac/config and the cache file exists in a project directory. quick: 150 random "
